@@ -18,6 +18,7 @@ func init() {
 		},
 		Assumptions: commonAssumptions,
 		Engines:     "WHO, ROLE, GUARD, PATH",
+		TagMatrix:   [][]string{{"integration"}},
 		Run:         runC08,
 	})
 }
